@@ -205,6 +205,10 @@ func c20Gen(c *vfCtx, emit func(c20Case)) {
 		emit(c20Case{Kind: "seq", Ops: []string{c20Ops[i]}, Stale: 4, Env: env, Sort: i%2 == 0})
 		emit(c20Case{Kind: "seq", Ops: []string{c20Ops[i], "snap:pass"}, Stale: 1 + i%2, Big: true, Env: env, Sort: i%3 == 0})
 		emit(c20Case{Kind: "seq", Ops: []string{c20Ops[i], "snap:pass", c20Ops[(i+7)%len(c20Ops)]}, Stale: 1 + i%3, CRLF: true, Env: env, Sort: i%2 == 0})
+		if i%2 == 0 {
+			// ... and with the file that only a skipping test owns (stale 4) in CR LF as well
+			emit(c20Case{Kind: "seq", Ops: []string{c20Ops[i]}, Stale: 4, CRLF: true, Env: env, Sort: i%4 == 0})
+		}
 		emit(c20Case{Kind: "seq", Ops: []string{c20Ops[i], "snapg:pass"}, Stale: 3, Env: env})
 		emit(c20Case{Kind: "seq", Ops: []string{"snapg:pass", c20Ops[i], "snap:pass"}, Stale: 3, Env: env, Sort: true})
 		emit(c20Case{Kind: "seq", Ops: []string{c20Ops[i], c20Ops[i], c20Ops[i], c20Ops[i], c20Ops[i], c20Ops[i]}, Stale: 1, Env: env})
